@@ -1473,6 +1473,7 @@ class Compiler:
                         self._emit(OpCode.STORE_CELL, cell_slot)
                         self._emit(OpCode.POP)
                     else:
+                        self._emit(OpCode.POS)  # postfix yields ToNumber(old value)
                         self._emit(OpCode.DUP)
                         self._emit(inc_op)
                         self._emit(OpCode.STORE_CELL, cell_slot)
@@ -1487,6 +1488,7 @@ class Compiler:
                             self._emit(OpCode.STORE_LOCAL, slot)
                             self._emit(OpCode.POP)
                         else:
+                            self._emit(OpCode.POS)  # postfix yields ToNumber(old value)
                             self._emit(OpCode.DUP)
                             self._emit(inc_op)
                             self._emit(OpCode.STORE_LOCAL, slot)
@@ -1502,6 +1504,7 @@ class Compiler:
                                 self._emit(OpCode.STORE_CLOSURE, closure_slot)
                                 self._emit(OpCode.POP)
                             else:
+                                self._emit(OpCode.POS)  # postfix yields ToNumber(old value)
                                 self._emit(OpCode.DUP)
                                 self._emit(inc_op)
                                 self._emit(OpCode.STORE_CLOSURE, closure_slot)
@@ -1515,6 +1518,7 @@ class Compiler:
                                 self._emit(OpCode.STORE_NAME, idx)
                                 self._emit(OpCode.POP)
                             else:
+                                self._emit(OpCode.POS)  # postfix yields ToNumber(old value)
                                 self._emit(OpCode.DUP)
                                 self._emit(inc_op)
                                 self._emit(OpCode.STORE_NAME, idx)
@@ -1548,6 +1552,7 @@ class Compiler:
                     self._emit(OpCode.POP)  # [nv]
                 else:
                     # a.x++: return old value
+                    self._emit(OpCode.POS)  # postfix yields ToNumber(old value)
                     self._emit(OpCode.DUP)  # [obj, prop, old_value, old_value]
                     self._emit(inc_op)  # [obj, prop, old_value, new_value]
                     # Rearrange: [obj, prop, old_value, new_value] -> [old_value, obj, prop, new_value]
